@@ -8,6 +8,7 @@ import Hw.Topo.RestrictLemmas
 import Hw.Topo.RenderLemmas
 import Hw.Topo.RestrictTyping
 import Hw.Topo.RestrictSide
+import Hw.Topo.RestrictWF
 import Hw.Attr.MemAttrsState
 namespace Hw.Props.C08
 open Hw.Topo Hw.Topo.Restrict Hw.Gen.Restrict
@@ -466,6 +467,43 @@ example :
 
 end Side
 
+/-! ### A8: the hypotheses of the theorems above follow from well-formedness alone, and are preserved -/
+
+/-- (1) **the whole restrict model preserves the tree invariants the other theorems assume**: SetsOK (`okT`), the kind
+    discipline (`typedT`) and "the root is a normal object" — BYCPUSET and BYNODESET, every flag word, the tree recursion with
+    the re-attachment of Misc / I-O children, level merging (keep_structure) and the final re-sort.  Also along any history. -/
+theorem C08_restrict_preserves_typing (t : Topo) (s : CSet) (flags : Nat)
+    (hok : okT t.tree = true) (ht : typedT t.tree = true) (hr : isNormal t.tree.obj.type = true) :
+    okT (restrict t s flags).1.tree = true ∧ typedT (restrict t s flags).1.tree = true ∧
+    isNormal (restrict t s flags).1.tree.obj.type = true :=
+  ⟨ok_restrict t s flags hok, (typed_restrict t s flags ht hr).1, (typed_restrict t s flags ht hr).2⟩
+
+theorem C08_repeat_preserves_typing (t : Topo) (calls : List (CSet × Nat))
+    (hok : okT t.tree = true) (ht : typedT t.tree = true) (hr : isNormal t.tree.obj.type = true) :
+    okT (runCalls t calls).tree = true ∧ typedT (runCalls t calls).tree = true ∧ isNormal (runCalls t calls).tree.obj.type = true := by
+  induction calls generalizing t with
+  | nil => exact ⟨hok, ht, hr⟩
+  | cons c cs ih =>
+    unfold runCalls
+    rw [List.foldl_cons]
+    have := C08_restrict_preserves_typing t c.1 c.2 hok ht hr
+    exact ih _ this.1 this.2.1 this.2.2
+
+/-- (2) **WF implies the hypotheses**: for EVERY well-formed dump the tree the engine rebuilds from it (`treeOf`, the input of
+    the model on every call) satisfies SetsOK and the typing, and its root is the Machine object.  (`treeOf` fails only on a
+    dump whose objects are not listed parents-first, which is reported as MODEL-INPUT-ERROR.) -/
+theorem C08_wf_implies_okT (d : Dump) (h : WF d) (t : Tree) (ht : treeOf d = .ok t) :
+    okT t = true ∧ typedT t = true ∧ t.obj.type = tMACHINE ∧ isNormal t.obj.type = true :=
+  wf_treeOf h t ht
+
+/-- … hence the set, link and level theorems above (C08_sets_exact_whole, C08_restrict_links, C08_restrict_levels, C08_repeat_exact)
+    apply to every history of calls that starts from a well-formed topology, with no hypothesis besides `WF d` -/
+theorem C08_wf_restrict_typing (d : Dump) (h : WF d) (t : Tree) (ht : treeOf d = .ok t) (ac an : Nat) (calls : List (CSet × Nat)) :
+    let T := runCalls { tree := t, allowedCpu := ac, allowedNode := an, filters := d.filters } calls
+    okT T.tree = true ∧ typedT T.tree = true ∧ isNormal T.tree.obj.type = true := by
+  have := wf_treeOf h t ht
+  exact C08_repeat_preserves_typing _ calls this.1 this.2.1 this.2.2.2
+
 /-! ### non-vacuity and the reorder-without-removal case -/
 
 /-- Machine [Core{PU2} (complete {0,2}), Core{PU1} (complete {1,3})] + one NUMA node; PUs 0 and 3 are offline -/
@@ -493,5 +531,13 @@ theorem C08_reorder_without_removal_reachable :
       (objsL (restrictT p t.tree).kept).length = (objsT t.tree).length ∧
       (objsL (restrictT p t.tree).kept).map (·.gp) ≠ (objsL (restrictTW id p t.tree).kept).map (·.gp) :=
   ⟨demo, ⟨⟨6, true⟩, CSet.empty, false, false, false, false⟩, by decide +kernel⟩
+
+/-- non-vacuity of C08_wf_implies_okT / C08_wf_restrict_typing: the rendering of `demo` (with the local memory of the NUMA node as
+    carried field) is a well-formed dump and `treeOf` rebuilds a tree from it -/
+def demoDump : Dump := render demo.tree ⟨0, List.replicate 20 0, some 6, some 1⟩ (fun _ => {})
+example : WF demoDump := by decide +kernel
+example : (match treeOf demoDump with | .ok t => (objsT t).map (·.gp) == [1, 2, 3, 9, 4, 5, 6] | .error _ => false) = true := by
+  decide +kernel
+example : okT demo.tree = true ∧ typedT demo.tree = true ∧ isNormal demo.tree.obj.type = true := by decide +kernel
 
 end Hw.Props.C08
